@@ -38,6 +38,9 @@ func VerifyFunc(ld *Loader, db *ContractDB, fn *ssa.Function, ct *FuncContract, 
 		if ct.Opts["fpuf"] == "true" {
 			ex.fpUF = true
 		}
+		for _, n := range strings.Fields(ct.Opts["reveal"]) {
+			ex.revealed[n] = true
+		}
 	}
 	defer func() {
 		if r := recover(); r != nil {
@@ -57,6 +60,7 @@ func VerifyFunc(ld *Loader, db *ContractDB, fn *ssa.Function, ct *FuncContract, 
 	st.alloc = "alloc0"
 	ex.vc.Assume(not(sel("alloc0", z64())))
 	fr := &Frame{fn: fn, regs: map[ssa.Value]Val{}, ct: ct}
+	ex.topFrame = fr
 	for _, p := range fn.Params {
 		v := mkVal(p.Type(), "p_"+p.Name(), nil, func(path string, s Sort) string {
 			n := sanitize(path)
@@ -93,9 +97,17 @@ func VerifyFunc(ld *Loader, db *ContractDB, fn *ssa.Function, ct *FuncContract, 
 		}
 		fr.entry = st.clone()
 		for _, rq := range ct.Requires {
-			ex.vc.Assume(ex.evalBool(fr, st, fr.entry, nil, rq.Expr))
+			for _, e := range flattenAnd(rq.Expr) {
+				for _, part := range ex.splitClause(fr, st, nil, Clause{Expr: e, Text: exprText(e)}) {
+					ex.vc.Assume(part.term)
+				}
+			}
 		}
 		fr.entry = st.clone()
+		for _, ap := range ct.Applies {
+			c := ex.newCtx(fr, st, fr.entry, nil)
+			ex.vc.Assume(ex.applyLemma(fr, st, c, ap, funcName(fn)))
+		}
 		if ct.HasAssigns {
 			ex.compileAssigns(fr, st, ct)
 		}
@@ -128,10 +140,11 @@ func VerifyFunc(ld *Loader, db *ContractDB, fn *ssa.Function, ct *FuncContract, 
 		}
 		if ct != nil {
 			for _, en := range ct.Ensures {
-				t := ex.evalBool(fr, out, fr.entry, res, en.Expr)
-				o := ex.oblige(out, fr, "post", token.NoPos, en.Text, t)
-				if o != nil && len(en.Props) > 0 {
-					o.Props = en.Props
+				for _, part := range ex.splitClause(fr, out, res, en) {
+					o := ex.oblige(out, fr, "post", token.NoPos, part.text, part.term)
+					if o != nil && len(en.Props) > 0 {
+						o.Props = en.Props
+					}
 				}
 			}
 		}
@@ -310,6 +323,56 @@ func sortedCompKeys(m map[string]compInfo) []string {
 	}
 	sort.Strings(ks)
 	return ks
+}
+
+// splitClause evaluates an ensures clause; a clause that is a call of a
+// (non-opaque) pure function whose body is a conjunction is split into one
+// obligation per conjunct, so a failure names the broken conjunct.
+func (ex *Exec) splitClause(fr *Frame, st *State, res []Val, cl Clause) []invConj {
+	call, ok := cl.Expr.(*ECall)
+	var pf *PureFunc
+	if ok {
+		pf = ex.db.pures[call.Fn]
+	}
+	if pf == nil || pf.Opaque || len(call.Args) != len(pf.Params) {
+		return []invConj{{cl.Text, ex.evalBool(fr, st, fr.entry, res, cl.Expr)}}
+	}
+	var parts []Expr
+	var split func(e Expr)
+	split = func(e Expr) {
+		if b, ok := e.(*EBin); ok && b.Op == "&&" {
+			split(b.X)
+			split(b.Y)
+			return
+		}
+		parts = append(parts, e)
+	}
+	split(pf.Body)
+	if len(parts) == 1 {
+		return []invConj{{cl.Text, ex.evalBool(fr, st, fr.entry, res, cl.Expr)}}
+	}
+	outer := ex.newCtx(fr, st, fr.entry, res)
+	c := ex.newCtx(fr, st, fr.entry, res)
+	c.env = map[string]TVal{}
+	c.lets = map[string]Expr{}
+	if p := c.findPkg(pf.Pkg); p != nil {
+		c.pkg = p
+	}
+	for i, p := range pf.Params {
+		c.env[p.Name] = outer.coerce(outer.eval(call.Args[i]), c.resolveType(p.Type))
+	}
+	var out []invConj
+	for i, e := range parts {
+		out = append(out, invConj{fmt.Sprintf("%s#%d %s", call.Fn, i+1, exprText(e)), c.boolTerm(e)})
+	}
+	return out
+}
+
+func flattenAnd(e Expr) []Expr {
+	if b, ok := e.(*EBin); ok && b.Op == "&&" {
+		return append(flattenAnd(b.X), flattenAnd(b.Y)...)
+	}
+	return []Expr{e}
 }
 
 type invConj struct {
@@ -596,6 +659,40 @@ func (ex *Exec) havocPattern(st *State, fr *Frame, p assignPat, pos token.Pos) {
 // ---------------------------------------------------------------------------
 // lemmas
 
+// applyLemma instantiates a lemma (proved as its own obligation) at explicit
+// arguments evaluated in context c and returns the instance.
+func (ex *Exec) applyLemma(fr *Frame, st *State, c *evalCtx, ap Expr, where string) string {
+	call, ok := ap.(*ECall)
+	if !ok {
+		panic(evalErr{"apply expects LEMMA(args)"})
+	}
+	var other *Lemma
+	for _, o := range ex.db.lemmas {
+		if o.Name == call.Fn {
+			other = o
+		}
+	}
+	if other == nil {
+		panic(evalErr{"apply: unknown lemma " + call.Fn})
+	}
+	q, ok := other.Body.(*EQuant)
+	if !ok || len(q.Vars) != len(call.Args) {
+		panic(evalErr{"apply " + call.Fn + ": argument count does not match the lemma's quantified variables"})
+	}
+	oc := ex.newCtx(fr, st, st, nil)
+	oc.env = map[string]TVal{}
+	oc.lets = map[string]Expr{}
+	if p := oc.findPkg(other.Pkg); p != nil {
+		oc.pkg = p
+	}
+	for i, qv := range q.Vars {
+		oc.env[qv.Name] = c.coerce(c.eval(call.Args[i]), oc.resolveType(qv.Type))
+	}
+	ex.vc.Trust("lemma " + other.Name + " (proved as its own obligation) applied in " + where)
+	ex.usedLemmas[other.Name] = true
+	return oc.boolTerm(q.Body)
+}
+
 // VerifyLemma checks a closed lemma. A top-level forall is skolemised so the
 // query is quantifier free.
 func VerifyLemma(ld *Loader, db *ContractDB, lm *Lemma, anyFn *ssa.Function) (vc *VC, err error) {
@@ -647,9 +744,30 @@ func VerifyLemma(ld *Loader, db *ContractDB, lm *Lemma, anyFn *ssa.Function) (vc
 		body = q.Body
 	}
 	for _, u := range lm.Uses {
+		if strings.HasPrefix(u, "reveal:") {
+			ex.revealed[strings.TrimPrefix(u, "reveal:")] = true
+		}
+	}
+	// lemma applications: instantiate another lemma's body at explicit arguments
+	for _, ap := range lm.Applies {
+		ex.vc.Assume(ex.applyLemma(fr, st, c, ap, "lemma "+lm.Name))
+	}
+	for _, u := range lm.Uses {
 		if ax, ok := axioms[u]; ok {
 			ex.vc.Assume(ax)
 			ex.vc.Trust("axiom " + u)
+		}
+		for _, other := range db.lemmas {
+			if other.Name == u && other != lm {
+				// a lemma proved separately may be used as a (quantified) hypothesis
+				oc := ex.newCtx(fr, st, st, nil)
+				oc.env = map[string]TVal{}
+				oc.lets = map[string]Expr{}
+				if p := oc.findPkg(other.Pkg); p != nil {
+					oc.pkg = p
+				}
+				ex.vc.Assume(oc.boolTerm(other.Body))
+			}
 		}
 	}
 	goal := c.boolTerm(body)
